@@ -139,7 +139,13 @@ def run(ctx):
     ctx.rule('R-C18j.fd', 'a block whose member array received descriptors from pipe()/pipe2() is passed to free only after every one of '
                           'them was closed, on every path in its calling context, unless the path tests the mode under which the '
                           'descriptors are acquired as off, or the block was allocated in this very activation', floor=1)
+    ctx.rule('R-C18k', 'LOCAL-BLOCK: a block the library allocates into a local (malloc/calloc) has an owner on every path from the '
+                       'allocation to a return of every function it is visible in (helpers inlined): it was passed to free, stored '
+                       'into memory outside the block and outside the frame (or linked into a list/tree by a member), handed to code '
+                       'not in sight that may keep it, returned, or tested to be NULL -- the last local holding it is never '
+                       'overwritten, re-allocated into, or left behind at a return while the block is still owned by nobody else', floor=5)
     ctx.section(radix)
+    ctx.section(local_blocks)
     ctx.section(array_bounds)
     ctx.section(kernel_writes)
     ctx.section(tls_hooks)
@@ -288,10 +294,23 @@ LIST_LINKS = (('iv_list_head', 'next'), ('iv_list_head', 'prev'))
 def _frame_stores(f, chained=False):
     """stores of the address of a local into memory that outlives the frame: (event, the local's variable node)"""
     out = []
+    # a local that is assigned exactly once, the address of another local (`current = &batch`), designates that frame
+    # object wherever it is read: storing it publishes the frame address just the same
+    defs = {}
+    for e in f.events():
+        if e['ev'] == 'store' and strip(e['lhs']).get('k') == 'var' and strip(e['lhs']).get('vk') == 'local':
+            defs.setdefault(strip(e['lhs'])['name'], []).append(e)
     for e in list(f.events()):
         if e['ev'] != 'store' or e.get('op') != '=' or (e.get('chain') and not chained):
             continue
         r = strip(e['rhs'])
+        r1 = strip(strip_load(r)) if isinstance(r, dict) else r
+        if isinstance(r1, dict) and r1.get('k') == 'var' and r1.get('vk') == 'local' and strip(e['lhs']).get('k') != 'var':
+            ds = defs.get(r1['name'], [])
+            if len(ds) == 1 and ds[0].get('op') == '=' and 'rhs' in ds[0]:
+                r0 = strip(ds[0]['rhs'])
+                if isinstance(r0, dict) and r0.get('k') == 'addr':
+                    r = r0
         if not (isinstance(r, dict) and r.get('k') == 'addr'):
             continue
         v = strip(r['e'])
@@ -613,29 +632,43 @@ def method_resources(ctx, prog):
 
         def keyof(x):
             n = var_name(x) if strip(x).get('k') == 'var' else None
+            if n is None:
+                # `*&v` (a result handed back through an out-parameter, helper inlined) is the variable v itself
+                p = h18.plain_lhs(strip_load(x)) if isinstance(strip_load(x), dict) else None
+                n = var_name(p) if p is not None else None
             if n:
                 return ('var', n)
             return path_key(vi.resolve(h18.deref_norm(vi, x)))
 
+        # fact: set of (acquisition site, kind, holders): the holders are the locals / state fields that hold that very
+        # value now.  A copy adds a holder (the block is then known under both spellings: releasing through either one
+        # releases it, a failed-acquisition test on either one says there is nothing to release); overwriting a local
+        # removes it; a resource without any holder left is still a resource that was not released.
         def tr(e, S):
             if e['ev'] == 'store' and e.get('op') == '=' and 'rhs' in e:
                 k = keyof(e['lhs'])
                 if k is None:
                     return S
-                rk = keyof(e['rhs']) if isinstance(strip(e['rhs']), dict) and strip(e['rhs']).get('k') in ('var', 'member') else None
-                if kind(e['rhs'], {}):
+                r0 = strip(e['rhs'])
+                rk = keyof(e['rhs']) if isinstance(r0, dict) and r0.get('k') in ('var', 'member', 'deref') else None
+                kd = kind(e['rhs'], {})
+                out = set()
+                for (rid, kn, H) in S:
+                    H2 = (H - {k}) if k[0] == 'var' else H
+                    if not kd and rk is not None and rk in H:
+                        H2 = H2 | {k}
+                        spell[k] = canon(e['lhs'])
+                    out.add((rid, kn, H2))
+                if kd:
                     spell[k] = canon(e['lhs'])
-                    return S | {(k, kind(e['rhs'], {}))}
-                moved = [x for x in S if x[0] == rk] if rk else []
-                if moved:
-                    spell[k] = canon(e['lhs'])
-                    return (S - set(moved)) | {(k, moved[0][1])}
-                return frozenset(x for x in S if x[0] != k) if k[0] == 'var' else S
+                    rid_ = (e['loc'], k)          # one helper inlined twice acquires two resources at one source location
+                    out = {x for x in out if x[0] != rid_}
+                    out.add((rid_, kd, frozenset([k])))
+                return frozenset(out)
             if e['ev'] == 'call' and e.get('args'):
                 k = keyof(e['args'][0])
-                for x in S:
-                    if x[0] == k and is_call(e, RELEASE[x[1]]):
-                        return S - {x}
+                if k is not None:
+                    return frozenset(x for x in S if not (k in x[2] and is_call(e, RELEASE[x[1]])))
             return S
 
         def edge(blk, si, atoms, S):
@@ -644,13 +677,14 @@ def method_resources(ctx, prog):
                     continue
                 if (op == '==' and b in ('0', '-1')) or (op == '<' and b == '0'):
                     ks = {keyof(l)} | {('var', n) for n in names_of(l)}
-                    S = frozenset(x for x in S if x[0] not in ks)
+                    S = frozenset(x for x in S if not (x[2] & ks))
             return S
         rets = h18.path_states(gi, frozenset(), tr, edge)
         fails = {}
         for (e, S, rc) in rets:
             if e is not None and is_fail(rc):
-                fails.setdefault(e['loc'], (e, set()))[1].update(spell.get(x[0], str(x[0])) for x in S)
+                fails.setdefault(e['loc'], (e, set()))[1].update(
+                    '/'.join(sorted(spell.get(h, str(h)) for h in x[2])) or 'the %s acquired at %s (no reference left)' % (x[1], x[0][0]) for x in S)
         if not fails:
             raise AnalysisBroken('%s: no failing return found' % fi.name)
         for loc, (e, heldset) in sorted(fails.items()):
@@ -1833,6 +1867,31 @@ def radix(ctx):
     cands = [(n_, 0) for n_ in dsp]
     cands += [(k[1], v) for k, v in doffs.get((gd.exit, 0), {}).items() if isinstance(k, tuple) and k[0] == 'i']
     none_left = any(atoms_imply(A, '==', n_, str(o)) or atoms_imply(A, '<=', n_, str(o)) for (n_, o) in cands)
+    if not none_left:
+        # the same fact decided per path instead of at the join in front of the return: every path to the exit takes an edge
+        # on which the depth (or a local that differs from it by a known constant there) is known to be zero, and the depth is
+        # not stored to afterwards (`if (depth) do { left = remove_level(); } while (left);`: one path knows depth == 0, the
+        # other left == 0 with left == depth; their join knows neither spelling)
+        bid = {id(b): k for k, b in gd.blocks.items()}
+
+        def zero_on_edge(blk, si):
+            end = (bid[id(blk)], len(blk.events))
+            At = set(Vd.atoms(end))
+            c = blk.term.get('cond') if blk.term else None
+            if c is not None and len(blk.succ) == 2 and blk.term.get('cls') not in ('SwitchStmt', 'MethodDispatch'):
+                At |= {(op, lc, rc, frozenset()) for (op, lc, rc, l, r) in h18._cond_atoms(c, si == 0) if op != 'const'}
+            cs = [(n_, 0) for n_ in dsp] + [(k[1], v) for k, v in doffs.get(end, {}).items() if isinstance(k, tuple) and k[0] == 'i']
+            return any(atoms_imply(At, '==', n_, str(o)) or atoms_imply(At, '<=', n_, str(o)) for (n_, o) in cs)
+
+        def tr_(e, s_):
+            if e['ev'] == 'store' and last_member(h18.deref_norm(Vd, e['lhs'])) == DEPTH:
+                return False
+            if e['ev'] == 'call' and e.get('callee') and prog.has_fn(e['callee']) and e['callee'] not in fnames \
+                    and any(w.name == e['callee'] for w in writers):
+                return False
+            return s_
+        _, zin = forward(gd, False, tr_, lambda a, b: a and b, edge=lambda blk, si, s_: s_ or zero_on_edge(blk, si))
+        none_left = bool(zin.get((gd.exit, 0)))
     ctx.ob('R-C18a.radix', 'timer_deinit:all-levels-removed', 'iv_timer_deinit' in reached_from and none_left, loc=d.loc,
            detail='iv_timer_deinit reaches the level removal and returns only with the depth == 0', fn=d.q)
 
@@ -1966,6 +2025,77 @@ def owned_blocks(ctx):
             if not any(r.name == n for (r, _, _) in per_root):
                 ctx.ob('R-C18j', '%s:%s.%s released at return' % (n, rec, fld), False, loc=prog.fn(n).loc,
                        detail='the call that ends the object\'s life does not look at the owning field at all', fn=prog.fn(n).q)
+
+
+# --------------------------------------------------------------------------
+# R-C18k: a block allocated into a local is freed, stored into a longer-lived holder, or returned on every path
+# --------------------------------------------------------------------------
+
+MEM_PRIMS = tuple(sorted(k for k, v in ACQUIRE.items() if v == 'mem'))
+
+
+def _alloc_sites(g):
+    """{loc: store event} of the stores `L = malloc(...)` / `L = calloc(...)` into a local variable (also `*&L = ...`)"""
+    out = {}
+    for e in g.events():
+        if e['ev'] != 'store' or e.get('op') != '=' or 'rhs' not in e:
+            continue
+        l = h18.plain_lhs(e['lhs'])
+        l = strip(e['lhs']) if l is None else l
+        if not (isinstance(l, dict) and l.get('k') == 'var' and h18.local_name(l) is not None):
+            continue
+        r = strip(e['rhs'])
+        while isinstance(r, dict) and r.get('k') in ('cast', 'load', 'paren') and isinstance(r.get('e'), dict):
+            r = strip(r['e'])
+        if isinstance(r, dict) and r.get('k') == 'call' and r.get('callee') in MEM_PRIMS:
+            out.setdefault(e['loc'], e)
+    return out
+
+
+def local_blocks(ctx):
+    prog = ctx.prog
+    acq = acquirers(prog)
+    F = {}
+    for f in prog.all_funcs():
+        if f.blocks and _alloc_sites(f):
+            F[f.q] = f
+    # a function that returns the block makes its callers answer for it: they see the allocation with the helper inlined
+    work = [f for f in F.values()]
+    while work:
+        f = work.pop()
+        if acq.get(f.q) != 'mem':
+            continue
+        for (c, e) in prog.callers_of(f.name):
+            if c.blocks and c.q not in F and prog.resolve(prog.unit_of(c), e['callee']) is f:
+                F[c.q] = c
+                work.append(c)
+    verdict, where, origin = {}, {}, {}
+    inl = Inliner(prog, stop=lambda t: not t.static)
+    for q in sorted(F):
+        f = F[q]
+        # static helpers are part of the function; a function with external linkage (the registration API of another module)
+        # that is handed the block or an address inside it is a holder in its own right
+        g = inl.inline(f)
+        V = view_of(prog, g)
+        for loc, e in sorted(_alloc_sites(g).items(), key=lambda kv: h18._locpos(kv[0])):
+            _s, lost, exits, _n = h18.owned_flow(V, None, None, None, True, site=loc)
+            why = None
+            if lost:
+                at = sorted(lost, key=h18._locpos)[0]
+                why = 'in %s the block is still owned by nobody else when %s' % (
+                    f.name, 'the same allocation runs again' if at == loc else 'the last local holding it is overwritten at %s' % at.split('/')[-1])
+            elif 'live' in exits:
+                why = '%s can return with the block neither freed, nor stored into a longer-lived holder, nor handed on, nor returned' % f.name
+            origin.setdefault(loc, (e.get('fn') or '').split(':')[-1] or f.name)
+            where.setdefault(loc, []).append(f.name)
+            if why and loc not in verdict:
+                verdict[loc] = why
+    if not origin:
+        raise AnalysisBroken('no allocation into a local found in the library')
+    for loc in sorted(origin, key=h18._locpos):
+        ctx.ob('R-C18k', '%s:block allocated here has an owner at every return' % origin[loc], loc not in verdict, loc=loc,
+               detail=verdict.get(loc) or 'freed, stored outside the frame, linked, handed on, returned or NULL on every path of %s'
+               % '/'.join(sorted(set(where[loc]))))
 
 
 # --------------------------------------------------------------------------
